@@ -2,7 +2,7 @@
 import random
 import shutil
 
-from .. import common, pipeline, tla
+from .. import canary, common, pipeline, tla
 from .. import d_copyguard as D
 
 PROTO_CFG = """SPECIFICATION Spec
@@ -84,6 +84,7 @@ def main(tier):
         rep.mark("schedules")
         events = hist + threads + faults
         res = tla.judge("J_CopyGuard", events, chunk=4000, jobs=common.jobs())
+        pipeline.canaries(rep, "J_CopyGuard", events[::max(1, len(events) // 40)], canary.copyguard, env=None, want=16)
         rep.mark("judge")
         for gi, clause, _ in res["bad"]:
             e = events[gi]
